@@ -22,8 +22,9 @@ import numpy as np
 from harness import common as C
 
 PROP = "C10"
-TARGETS = ["IbicusModel.Props.C10", "IbicusModel.Lemmas.GenDebiasers", "IbicusModel.Lemmas.GenIsimipFreq"]
-GEN = ["Debiasers", "IsimipFreq"]
+TARGETS = ["IbicusModel.Props.C10", "IbicusModel.Lemmas.GenDebiasers", "IbicusModel.Lemmas.GenIsimipFreq",
+           "IbicusModel.Lemmas.GenIsimipVars"]
+GEN = ["Debiasers", "IsimipFreq", "IsimipVars"]
 
 DAY = 86400.0
 THR_ISIMIP = 0.1 / DAY  # lower_threshold of ISIMIP pr, pr_lower_threshold of SDM, censoring threshold of QM censored
@@ -471,6 +472,77 @@ def replay(data):
     return 1 if problems else 0
 
 
+# ------------------------------------------------------------------ tier B for Model.IsimipSession (apply - assign - apply)
+SESSION_CONFIGS = ["pr_mult", "pr_mixed", "pr_v30", "pr_rice", "skew_param", "skew_param_v30", "hurs_param_freq", "skew_npqm"]
+
+
+def session_correspondence(rng, n, tier, res):
+    """real apply - assign - apply sequences on ONE ISIMIP object (rational test-double family) against the session model:
+    `assigncfg` (the model's settings after the re-assignments = the object's attributes, compared exactly) and `window`
+    at those settings (= what the real object returns at that apply)."""
+    from harness import isimip_corr as IC
+    from harness import isimip_family
+
+    def b(x):
+        return "_" if x is None else x
+
+    exps, hist, mismatches = [], __import__("collections").Counter(), []
+    for k in range(n):
+        name = SESSION_CONFIGS[k % len(SESSION_CONFIGS)]
+        spec = IC.CONFIGS[name]
+        deb = IC.make_debiaser(name)
+        tok0 = IC.cfg_token(deb)
+        series, ys = IC.gen_case(rng, spec, tier)
+        blocks = []
+        for step in range(3):
+            seed = rng.randint(0, 2**31 - 2)
+            case = {"config": name, "k": k, "apply": step + 1, "assigned": list(blocks), "sizes": [int(x.size) for x in series], "np_seed": seed}
+            exps.append(("assigncfg", f"assigncfg {tok0} {'|'.join(blocks) if blocks else '-'}", "ok " + IC.cfg_token(deb), case))
+            exps.append(("window", IC.build_case(deb, name, [x.copy() for x in series], ys, seed, case)[0], None, case))
+            # re-assign public attributes of the same object (dyadic values; data stay inside the bounds)
+            lt = ut = npqm = rice = None
+            if spec["kind"] == "lower":
+                lt = rng.choice([1 / 16, 1 / 4, 1 / 2, 1.0])
+            else:
+                top = 100.0 if spec["kind"] == "hurs" else 1.0
+                lt, ut = rng.choice([1 / 32, 1 / 8, 1 / 4]) * top, rng.choice([3 / 4, 7 / 8, 31 / 32]) * top
+            if rng.random() < 0.4:
+                npqm = not deb.nonparametric_qm
+            if rng.random() < 0.4:
+                rice = rng.random() < 0.5
+            if lt is not None:
+                deb.lower_threshold = float(lt)
+            if ut is not None:
+                deb.upper_threshold = float(ut)
+            if npqm is not None:
+                deb.nonparametric_qm = bool(npqm)
+            if rice is not None:
+                deb.distribution = isimip_family.rice_typed() if rice else isimip_family.IsiRatSigmoid()
+            blocks.append(",".join(["_", b(None if lt is None else IC.ext(lt)), "_", b(None if ut is None else IC.ext(ut)),
+                                    b(None if npqm is None else IC.b01(npqm)), b(None if rice is None else IC.b01(rice))]))
+    lines = [e[1] if e[0] == "assigncfg" else e[1].line for e in exps]
+    try:
+        out = C.run_driver("DrvIsimip", lines)
+    except C.DriverError as ex:
+        return [{"op": "driver", "detail": str(ex)[:400]}]
+    ties = 0
+    for (op, payload, want, case), got in zip(exps, out):
+        res.cov["traces_validated_against_impl"] += 1
+        if op == "assigncfg":
+            if got != want:
+                mismatches.append({"op": op, "case": case, "detail": f"settings after re-assignment: impl {want[:200]} model {got[:200]}"})
+            continue
+        status, detail = IC.compare(payload, got, hist)
+        res.count(("session", case["config"], case["apply"], tuple(case["assigned"])), case["apply"] > 1)
+        if status == "tie":
+            ties += 1
+        elif status == "mismatch":
+            mismatches.append({"op": f"window (apply {case['apply']} of a session)", "case": case, "detail": detail[:400]})
+    res.extra["ties_accepted"] = res.extra.get("ties_accepted", 0) + ties
+    res.extra["session_corr"] = {"sessions": n, "applies": 3 * n, "branches": dict(hist), "mismatches": len(mismatches)}
+    return mismatches
+
+
 # ------------------------------------------------------------------ the check
 def run(tier, res, force_search=False):
     from harness import debiasers_corr as DC
@@ -488,7 +560,9 @@ def run(tier, res, force_search=False):
         "uniformFam, ratOdds, ratFam; the driver's test double ratSigmoid does not have the range law)",
         "Model.Precip (hurdle / censored ppf) is tied to the code by the C17 check; here its ppf formulas are used as definitions",
         "oracles recorded from the real run by isimip_corr (draws, linregress / KS decisions, cos/logit/expit tables)",
-        "three concrete runs in Props/C10.lean are evaluated with the compiled model (#guard), not kernel-checked: List.mergeSort does not reduce in the kernel",
+        "tier A Gen.IsimipVars: isimip3_general_settings / isimip3_variable_settings are read from the AST of _isimip_options.py; that from_variable merges them as {**general, **variable} and passes them as attributes is the C15 check's statement",
+        "Model.IsimipSession (apply - assign - apply) is tied by real sequences on one object with the rational test-double family: driver op assigncfg (settings = the object's attributes, exact) + op window at those settings; caches, attribute hooks and object identity themselves are runtime facts decided by that correspondence and by the oracle's sequences",
+        "the concrete runs in Props/C10.lean marked #guard are evaluated with the compiled model (#guard), not kernel-checked: List.mergeSort does not reduce in the kernel",
     ]
     res.assumptions = [
         "inputs finite, non-negative / inside [lb, ub]; every window has >= 20 values strictly between the thresholds (pr: wet values) in obs, cm_hist, cm_future",
@@ -516,6 +590,10 @@ def run(tier, res, force_search=False):
         n_isi = 48 if tier == "quick" else 800
         mi = IC.correspondence(rng, n_isi, tier, res, configs=ISIMIP_CORR_CONFIGS)
         mi += IC.correspondence_aux(rng, 6 if tier == "quick" else 60, tier, res)
+        ms = session_correspondence(rng, 8 if tier == "quick" else 80, tier, res)
+        if ms:
+            res.tie_broken.append(f"correspondence DrvIsimip / Model.IsimipSession (apply - assign - apply): {len(ms)} mismatches, first: {str(ms[0])[:700]}")
+            mismatches += ms[:3]
         if mi:
             res.tie_broken.append(f"correspondence DrvIsimip: {len(mi)} mismatches, first: {str({k: v for k, v in mi[0].items() if k != 'line'})[:700]}")
             mismatches += [{k: (str(v)[:400]) for k, v in m.items() if k != "line"} for m in mi[:3]]
@@ -526,7 +604,7 @@ def run(tier, res, force_search=False):
 
     # ---- the property's oracle on the real code (real scipy families)
     t2 = time.time()
-    reps = 3 if tier == "quick" else 12
+    reps = 3 if tier == "quick" else 9
     if force_search or not lean_ok or res.tie_broken:
         reps *= 3
     plan = []
